@@ -319,18 +319,29 @@ def search(h):
 @oset("factory.discover", ["C18", "C19"], [FACT + ":discover", FACT + ":_connect_airtouch_4", FACT + ":_connect_airtouch_5", FACT + ":connect"])
 def discover(h):
     """Returned clients carry the right model, TCP port 9004 / 9005, and the discovered id / name / serial / host."""
-    if not h.symbolic:
-        return
-    w = World(h.it)
+    if h.symbolic:
+        w = World(h.it)
     n4 = h.choice("at4_responses", [0, 1, 2])
     n5 = h.choice("at5_responses", [0, 1])
     R4 = [h.new(GEN[4]["mod"] + ":At4DiscoveryResponse", airtouch_id=f"a{i}", host=f"10.0.4.{i}", serial=f"s4{i}") for i in range(n4)]
     R5 = [h.new(GEN[5]["mod"] + ":At5DiscoveryResponse", airtouch_id=f"b{i}", name="Home, sweet", serial=f"s5{i}", host=f"10.0.5.{i}") for i in range(n5)]
 
-    def _search(it, fn, args, kwargs):
-        return aio.Awaitable("_search", lambda it2: list(R4) + list(R5))
-    h.it.call_hooks[FACT + ":_search"] = _search
-    r = h.call(FACT + ":discover")
+    if h.symbolic:
+        def _search(it, fn, args, kwargs):
+            return aio.Awaitable("_search", lambda it2: list(R4) + list(R5))
+        h.it.call_hooks[FACT + ":_search"] = _search
+        r = h.call(FACT + ":discover")
+    else:
+        import pyairtouch.factory as _F
+        real = _F._search
+
+        async def fake(remote_host=None):
+            return list(R4) + list(R5)
+        _F._search = fake
+        try:
+            r = h.call(FACT + ":discover")
+        finally:
+            _F._search = real
     h.oblige("discover never raises", r.ok)
     if not r.ok:
         return
@@ -444,14 +455,20 @@ def factory_search(h):
 def factory_connect(h):
     """connect(model, host, port, airtouch_id=, name=, serial=): the same arguments give clients of the two generations
     that differ only in class, model and registry; omitted arguments get the documented defaults."""
-    if not h.symbolic:
-        return
-    w = World(h.it)
+    if h.symbolic:
+        w = World(h.it)
     g = h.choice("generation", [4, 5])
     given = {k: h.choice(f"{k}_given", [True, False]) for k in ("airtouch_id", "name", "serial")}
     kw = {k: {"airtouch_id": "ID-7", "name": "Beach house", "serial": "SER-9"}[k] for k, v in given.items() if v}
     model = h.member("pyairtouch.api:AirTouchModel", f"AIRTOUCH_{g}")
-    r = h.call(FACT + ":connect", model, "10.1.2.3", 9200, **kw)
+    if h.symbolic:
+        r = h.call(FACT + ":connect", model, "10.1.2.3", 9200, **kw)
+    else:
+        import pyairtouch.factory as _F
+
+        async def go():   # connect() needs a running loop
+            return _F.connect(model, "10.1.2.3", 9200, **kw)
+        r = h.call(go)
     h.oblige("connect never raises", r.ok)
     if not r.ok:
         return
